@@ -18,12 +18,14 @@ CHECKS["C05"] = dict(
           "sequences of 20..400 ops over random configurations (capacity 0..14, shards 1..4, algorithm parameter variants). "
           "After EVERY step the ledger compares usage()/entries()/contains() with the resident set derived from leave events and "
           "judges necessity and sufficiency of each eviction. Non-trivial = the sequence caused at least one capacity eviction; "
-          "distinct = hash of (configuration, op sequence)."),
+          "distinct = hash of (configuration, op sequence). (d) quiescent points of multi-threaded runs (c13mt: 2..4 / 2..7 threads x "
+          "100..600 ops): after join, usage() and entries() equal the total weight and number of the entries lookups still find."),
     exhaustive_part="part (b): every sequence of the stated depth over the stated alphabet is run",
     assumptions=MEMSEQ_ASSUME,
     min_nontrivial=50,
     jobs=[dict(cmd="memseq", args={"prop": "C05"}, tiers=["quick", "thorough"], timeout=1500),
-          dict(cmd="memseq", args={"prop": "C05"}, flavour="miri", tier_arg="miri", tiers=["thorough"], timeout=3000)],
+          dict(cmd="memseq", args={"prop": "C05"}, flavour="miri", tier_arg="miri", tiers=["thorough"], timeout=3000),
+          dict(cmd="c13mt", args={"prop": "C05"}, tiers=["quick", "thorough"], timeout=1500)],
 )
 
 CHECKS["C13"] = dict(
